@@ -213,7 +213,9 @@ def run_unit(unit_path, repo, verif, workdir, threads=8, twin=True, log=None):
     # Z3 instability guard: the same text verified under another crate name is the same proof.  A run that
     # reports failures is repeated under two other names; if one of them discharges everything, that is the
     # result (a genuine violation fails under every name).
-    if not timed_out and '"success": true' not in out and os.environ.get('VERIF_NO_RETRY') != '1' and _has_refutation(err):
+    first_refuted = _has_refutation(err)
+    first_rlimit = (not first_refuted) and any(u in err for u in UNDECIDED_MARKERS)
+    if not timed_out and '"success": true' not in out and os.environ.get('VERIF_NO_RETRY') != '1' and (first_refuted or first_rlimit):
         alt = []
         for suf in ('_r1', '_r2'):
             path = gen[:-3] + suf + '.rs'
@@ -236,7 +238,21 @@ def run_unit(unit_path, repo, verif, workdir, threads=8, twin=True, log=None):
             except Exception:
                 pass
         else:
-            res.portfolio = dict(res.portfolio or {}, retried=True, note='failures confirmed under two more crate names')
+            if first_rlimit:
+                # the first run only ran out of resources: take a variant that came to a definite answer, if any
+                for path, pr in alt:
+                    try:
+                        e2 = open(path + '.err').read()
+                        if _has_refutation(e2):
+                            out, err = open(path + '.out').read(), e2
+                            res.portfolio = dict(res.portfolio or {}, retried=True, winner=os.path.basename(path), note='first run hit the resource limit; a copy under another crate name refuted the obligation')
+                            break
+                    except Exception:
+                        pass
+                else:
+                    res.portfolio = dict(res.portfolio or {}, retried=True, note='resource limit under three crate names')
+            else:
+                res.portfolio = dict(res.portfolio or {}, retried=True, note='failures confirmed under two more crate names')
     if log:
         open(log, 'w').write(err)
     starts = [s[0] for s in spans]
